@@ -56,7 +56,7 @@ def parse(path):
                 i = j + 2
             else:
                 j = path.find("]", i)
-                if j < 0 or not path[i + 1:j].isdigit():
+                if j < 0 or not path[i + 1:j].lstrip("-").isdigit() or path[i + 1:j].count("-") > 1:
                     raise BadPath(path)
                 steps.append(int(path[i + 1:j]))
                 i = j + 1
@@ -126,6 +126,8 @@ def placeable(doc, steps):
                 # an index into a fresh object cannot be created
                 return not any(isinstance(t, int) for t in steps[k + 1:])
         elif isinstance(cur, list):
+            if isinstance(s, int) and s < 0:
+                return AMBIGUOUS       # negative array indices: not part of the Reference Path grammar, not asserted
             if not isinstance(s, int) or not (0 <= s < len(cur)):
                 return False
             cur = cur[s]
